@@ -47,7 +47,7 @@ ExactRootAt(n) ==
    (OnGrid(n) /\ SolvableAt(n) /\ IsSquare(DN(E(n).zr, E(n).zi, E(n).wr, E(n).wi))) =>
        LET sd == RootSd(E(n).zr, E(n).zi, E(n).wr, E(n).wi)
            sn == RootSn(E(n).zr, E(n).zi, E(n).wr, E(n).wi)
-       IN Abs(E(n).sq * sd - sn * SScale) <= STol * sd
+       IN E(n).sq >= 0 /\ E(n).sq <= 100 * SScale /\ Abs(E(n).sq * sd - sn * SScale) <= STol * sd
 SiteOK(n) == T.refused \/ (SolvableAt(n) /\ EquationAt(n) /\ SquaredModulusAt(n) /\ BranchAt(n) /\ ExactRootAt(n))
 
 \* the verdict of the call
@@ -73,6 +73,14 @@ AnsweredImpliesSquaredModulus == \A n \in Seen : T.refused \/ SquaredModulusAt(n
 AnsweredIsPhysicalBranch == \A n \in Seen : T.refused \/ (BranchAt(n) /\ ExactRootAt(n))
 AnsweredOnlyWhereSolvable == \A n \in Seen : T.refused \/ SolvableAt(n)
 RefusedIffSomeSiteUnsolvable == (l = NSites + 2) => RefusalOK
+
+\* diagnosis of rejected traces (Guarded = FALSE): TLC names the clauses a complete trace violates
+\* one line per trace: <<"CLAUSES", tid, b1..b5>>, b = 1 iff the clause is violated, in the order
+\* Equation, SquaredModulus, PhysicalBranch, OnlyWhereSolvable, RefusedIffSomeSiteUnsolvable
+Bit(b) == IF b THEN 0 ELSE 1
+Diagnosis == (l = NSites + 2) =>
+   PrintT(<<"CLAUSES", tid, Bit(AnsweredImpliesEquation), Bit(AnsweredImpliesSquaredModulus),
+            Bit(AnsweredIsPhysicalBranch), Bit(AnsweredOnlyWhereSolvable), Bit(RefusedIffSomeSiteUnsolvable)>>)
 
 Accepted == (l = NSites + 2) => PrintT(<<"ACCEPT", tid>>)
 Progress == PrintT(<<"AT", tid, l>>)
